@@ -12,7 +12,8 @@ from fortls.constants import log
 def path_from_uri(uri: str) -> str:
     # Convert file uri to path (strip html like head part)
     if not uri.startswith("file://"):
-        return os.path.abspath(uri)
+        # Resolve symbolic links like for a URI, paths are compared as strings
+        return str(Path(os.path.abspath(uri)).resolve())
     if os.name == "nt":
         _, path = uri.split("file:///", 1)
     else:
